@@ -274,3 +274,46 @@ MANIFEST_TEXT = {
             "level_text": "Exploration: generated transactions are serialised and decoded generically; structure and NULL/empty/UTF-8 rules are compared with the source value.",
             "level_note": _BASE_NOTE},
 }
+
+# Parts added after the sensitivity rounds (DESIGN.md section 11), appended to the rule text of the evidence.
+RULE_ADDENDA = {
+    "C01": "histories also contain file ends WITHOUT a rotate event (STOP / crash), a checksum setting that flips at a rotation (the first fake ROTATE is framed with the "
+           "master's current setting), file names that sort lower after a roll-over (999999 -> 1000000), and unused bitmap bits set to one as mysqld leaves them; a panic "
+           "inside Stream is a violation",
+    "C02": "the unit alphabet has a 15th symbol (file end without ROTATE); part 4: the stream is cut (close / EOF packet) in front of a drawn packet, possibly inside a "
+           "transaction - exactly the transactions whose commit event was sent are delivered; part 5: a unit is refused by the handler or the stream is cut and the SAME streamer "
+           "tries again (exactly-once oracle); part 6: 2-4 streamers parse long statement-heavy histories in parallel in one process",
+    "C03": "file changes are a ROTATE event, a STOP event or a plain end of file; the checksum setting may flip; the next file name may sort lower",
+    "C04": "further fault kinds: cancel at the n-th log call of the parser (between any two parser steps, through the logger hook), a handler that cancels and then fails, ERR "
+           "instead of the greeting, ERR to the checksum query (attempts that fail before the dump starts must leave the position alone); the thorough tier ENUMERATES one "
+           "failing attempt = kind x every fault point x pacing on three fixed history shapes",
+    "C05": "further dimensions: previous attempt ended by caller cancellation; schedule perturbation by a logger installed through SetLogger that delays the reader and/or the Stream "
+           "goroutine at the library's own log calls by 0.1..3 ms; one scenario in twelve uses a 40..120 unit history (hundreds of packets queue up); causes 'cancel at the n-th "
+           "parser log call', 'handler cancels then fails', 'cancel exactly between TCP connect and the driver's first look at the context'; the three Error() calls are made "
+           "IMMEDIATELY after Stream returned; after a cancel while the handler is gated the handler stays blocked 30 ms longer (Stream must not return meanwhile); the stall clock "
+           "only runs while the master is idle; the thorough tier ENUMERATES cause x every stop point x pacing x handler mode x gated call on three fixed history shapes",
+    "C06": "the FIRST Error() result is taken immediately after Stream returned; a handler / mapper failure that was demonstrably returned to the library must yield Stream != nil "
+           "even when the caller cancelled at the same moment; previous attempt may have ended by caller cancellation; schedule perturbation as in C05",
+    "C07": "histories may change file (names may sort lower, other base name) and attempts may fail at the greeting or at the checksum query (no dump may follow, position unchanged); "
+           "later attempts are judged with the resume window of C04",
+    "C08": "a second attempt on the SAME streamer (from the start again) runs before the retained transactions are re-verified",
+    "C09": "unused bitmap bits are zero or one; one case in twelve is end to end: a table id announced again with other column types must be split and decoded with the new map",
+    "C10": "earlier outputs are re-verified after later cells; parts: 2-4 goroutines decoding concurrently, end-to-end histories over these types compared after the stream ended, "
+           "ALTER TABLE with a new id and other signedness, re-announced table map",
+    "C11": "the last four outputs are re-verified after every later cell; parts: 2-4 goroutines decoding concurrently, end-to-end re-announced table map",
+    "C12": "runs of 2..8 TIMESTAMP cells decoded one after the other around an offset transition of the process zone; 2-4 goroutines decoding concurrently; re-announced table map",
+    "C13": "end-to-end histories with string / blob values of any size (packets beyond the driver's buffer) compared after the stream ended; 2-4 goroutines decoding concurrently; "
+           "re-announced table map",
+    "C14": "a document the decoder must reject is decoded first (its error is not judged); a second document of the same binary length is written over the first in the caller's buffer "
+           "and decoded from the same slice; 2-4 goroutines decode concurrently; re-announced table map",
+    "C15": "further attribution scenarios: re-announced with only the metadata changed; re-announced with another column count while the mapper is unchanged (error required when rows "
+           "follow); ALTER TABLE bringing the table back under a NEW id with other signedness / names (the mapper switches when the DDL is delivered)",
+    "C16": "Q_UPDATED_DB_NAMES also in its over-max form (count byte 254, no names); one case in thirty is end to end: several attempts on one streamer over a history whose checksum "
+           "setting flips at rotations",
+    "C17": "gate-failing classes include buffers over-long by 1..16 bytes; real events are extended by up to 16 bytes",
+    "C18": "SID blocks returned earlier are re-verified after later serialisations",
+    "C19": "SID blocks returned earlier are re-verified after later serialisations; a decoded previous-GTIDs set must stay what the master wrote when GTIDs are added to it",
+    "C20": "the direct MarshalJSON() result must equal json.Marshal's and the last four results are re-verified after later calls",
+}
+for _id, _txt in RULE_ADDENDA.items():
+    CHECKS[_id]["rule"] += ". Extensions after the sensitivity rounds: " + _txt
